@@ -116,3 +116,37 @@ Definition serveReadBody (parseTr : trailer_parser) (cfgMax cl : Z) (b : bytes) 
   | BErr _ _ _ => writeErrorResponse SEOther
   | BPanic | BOutOfFuel => SCloseSilently    (* not reachable with a positive limit *)
   end.
+
+(* ------------------------------------------------------------------ *)
+(* Request.ContinueReadBody: the limit guard comes BEFORE the          *)
+(* multipart pre-parse branch                                          *)
+(* ------------------------------------------------------------------ *)
+(* Request.ContinueReadBody(r, maxBodySize, preParseMultipartForm) — reached from
+   Request.ReadLimitBody (preParse = true), from serveConn (preParse = !DisablePreParseMultipartForm),
+   directly or after 'Expect: 100-continue' was answered.
+     isForm = Content-Type is multipart/form-data with a boundary and there is no Content-Encoding;
+     formOk = whether mime/multipart accepts the bytes (a parameter: the stdlib is not modelled).
+   readMultipartForm(r, boundary, cl, 16 MiB) consumes exactly cl bytes when the form parses. *)
+Inductive rqres :=
+| RQBody (r : bres)                         (* Request.ReadBody ran *)
+| RQForm (form_bytes rest : bytes)          (* the body went to the multipart parser, req.multipartForm is set *)
+| RQFormErr.                                (* readMultipartForm failed: req.Reset(), error *)
+
+Definition continueReadBody (parseTr : trailer_parser) (preParse isForm : bool) (formOk : bytes -> bool)
+           (cl max : Z) (b : bytes) : rqres :=
+  if cl >? 0 then
+    if (max >? 0) && (cl >? max) then RQBody (BErr EBodyTooLarge [] 0)
+    else if preParse && isForm then
+      if (cl <=? blen b) && formOk (btake cl b) then RQForm (btake cl b) (bdrop cl b) else RQFormErr
+    else RQBody (reqReadBody parseTr cl max b)
+  else RQBody (reqReadBody parseTr cl max b).
+
+(* the server step with it *)
+Definition serveContinueReadBody (parseTr : trailer_parser) (preParse isForm : bool) (formOk : bytes -> bool)
+           (cfgMax cl : Z) (b : bytes) : srv_step :=
+  match continueReadBody parseTr preParse isForm formOk cl (serverMaxBody cfgMax) b with
+  | RQBody (BOk body rest _) => SDispatch body rest
+  | RQForm form rest => SDispatch form rest           (* the handler gets the parsed form *)
+  | RQBody (BErr _ _ _) | RQFormErr => writeErrorResponse SEOther
+  | RQBody BPanic | RQBody BOutOfFuel => SCloseSilently
+  end.
